@@ -54,8 +54,8 @@ def repaired_hits(camp):
 
 
 def run(ctx):
-    ctx.level = "other"
     proved = common.proof_stage(ctx)
+    ctx.level = "proof" if proved else "other"
     exe, log = common.build_server()
     if exe is None:
         ctx.violation(dict(kind="build-failure", what="lsp4spl does not build", log=log[-3000:]), no_input=True)
@@ -151,11 +151,14 @@ def run(ctx):
         "explanation": EXPLANATION,
     })
     ctx.assumptions = [
-        "AnalyzedSource::new produces documents satisfying Refs.nav_wf_b (hypothesis of C12_robust): not proved, evaluated by the judge on "
-        "every document of every run (a violation makes the model output unreadable = correspondence failure)",
-        "the full functional statement C12_full_statement is not proved (and, since /repo b909979, no longer refuted: no counterexample "
-        "is known); it is validated by correspondence + oracle + its instances decided by the extracted model (judge command 37)",
-        "serde/lsp-types JSON mapping trusted; positions are (line, UTF-16 column)",
+        "`valid program` is read as `layout of a well-typed abstract program` (C12_valid); that a document without diagnostics is such a "
+        "layout (front-end completeness) is not proved - the judge decides the instances of C12_full_statement in its clean_doc wording "
+        "on every generated program (command 37)",
+        "AnalyzedSource::new produces documents satisfying Refs.nav_wf_b (hypothesis of C12_robust for documents that are not valid "
+        "programs): evaluated by the judge on every document of every run (a violation makes the model output unreadable = "
+        "correspondence failure)",
+        "that Model/Goto.v is goto.rs is validated by correspondence, not proved; serde/lsp-types JSON mapping trusted; positions are "
+        "(line, UTF-16 column)",
     ]
     if thorough and proved:
         if not common.coqchk(ctx):
@@ -163,27 +166,23 @@ def run(ctx):
 
 
 EXPLANATION = (
-    "level other: Props/C12.v proves, for ALL documents (any text/tokens/tree/table, not only analysed ones), about the Coq model "
-    "Model/Goto.v of goto.rs as of /repo b909979 (names resolved by syntactic position: behind `proc`, `type`, `:` or `of` in the global "
-    "table only, elsewhere in the enclosing procedure first - Model/Cursor.v is_global_position / lookup_for): the four handlers never "
-    "fail on a document satisfying the decidable well-formedness predicate nav_wf_b (C12_robust); no identifier token under the cursor or "
-    "no context => no location (C12_no_identifier_no_location); a name that resolves to a predefined entity => no location from "
-    "declaration/definition/implementation, and `int`, procedures, variables of primitive type or of an array type whose creator is not "
-    "a type of the table => no location from typeDefinition (C12_predefined_no_location, C12_type_definition_none); definition = "
-    "declaration (C12_definition_is_declaration); every returned range is the position range of a token of the document "
-    "(C12_answer_is_a_token); implementation answers only where declaration gives the same answer "
-    "(C12_implementation_refines_declaration); in a global position the answers do not depend on the enclosing procedure's locals and are "
-    "those of a type context (C12_global_position_ignores_locals, C12_global_position_as_type_context); elsewhere a local of the enclosing "
-    "procedure wins whatever else has its name (C12_local_wins).  NOT proved: the full functional statement C12_full_statement "
-    "(Spec/Nav.v: on every analysed, diagnostic-free text every identifier occurrence at every column inside it yields the name token of "
-    "the declaration it is bound to by its syntactic role).  It is no longer refuted: on the witnesses of the two findings repaired by "
-    "b909979 (C12-proc-name-shadowed-by-own-local, C12-type-use-shadowed-by-local; now regression corpus) and on a program with every "
-    "local/global name collision it holds at every occurrence (C12_repaired_witnesses_agree, by vm_compute), and no counterexample is "
-    "known.  It is validated only: by the correspondence of the model with the running server (extracted judge on every request, coqc's VM "
-    "on short documents), by the oracle that compares the server with bindings computed from the generator's derivation, and by the "
-    "extracted model deciding the instances of the Coq statement itself at every occurrence of the generated programs (judge command 37, "
-    "which also checks that the statement's occurrences are exactly the identifier tokens).  That AnalyzedSource::new yields nav_wf_b "
-    "documents is validated on every document, not proved.")
+    "level proof: Props/C12.v proves the functional statement of the property about the Coq model Model/Goto.v of goto.rs (as of /repo "
+    "b909979: names resolved by syntactic position - behind `proc`, `type`, `:` or `of` in the global table only, elsewhere in the "
+    "enclosing procedure first). C12_valid / C12_valid_text: for EVERY abstract program of the grammar that the declarative static "
+    "semantics accepts, every text that lexes to its tokens (every layout, comments in every gap), every identifier occurrence of the tree "
+    "and every cursor position inside its token, declaration and definition return the name token of the declaration the occurrence is "
+    "bound to under SPL scoping, implementation the same for procedures, typeDefinition the type declaration named by a type identifier "
+    "or the declaration that created the array type of a variable / parameter (alias chains followed), and no location for predefined "
+    "entities, `int`, anonymous array types - where occurrences, bindings and creators are computed by Spec/Nav.v from the TREE alone, "
+    "not from the symbol table the handlers use. The proof composes the parser round trip (C04), the typing theorems (C03), lexical "
+    "conformance (C06) and the position theorems (C08). For ALL documents (any text/tokens/tree/table): the handlers never fail under "
+    "nav_wf_b (C12_robust), no identifier token under the cursor or no context => no location, predefined / int / anonymous => no "
+    "location, definition = declaration, every returned range is the range of a token, implementation refines declaration, global "
+    "positions ignore locals, elsewhere a local wins. NOT proved: C12_full_statement in its wording `document without diagnostics` (needs "
+    "front-end completeness: no diagnostic => layout of a well-typed abstract program), and that the model is the code: both are decided "
+    "per input - correspondence of the model with the running server (extracted judge on every request, coqc's VM on short documents), "
+    "oracle from bindings computed from the generator's derivation, and the extracted model deciding the instances of the Coq statement "
+    "at every occurrence of the generated programs (judge command 37).")
 
 
 def replay(ctx, path):
